@@ -208,6 +208,7 @@ static void check_os (OSV *os)
   for (i = 0; i < nfin; i++)
     for (k = 0; k < fin[i].len; k++) sx_assert (((unsigned char *) fin[i].addr)[k] == fin[i].bytes[k], "a finished object is never moved or altered");
 }
+static int os_len1;
 static void os_history (YaepAllocator *al)
 {
   int K = (int) sx_param ("steps", 5), s, k; OSV os; static const int inits[3] = { 0, 1, 8 };
@@ -216,12 +217,18 @@ static void os_history (YaepAllocator *al)
   model_len = 0; nfin = 0;
   for (s = 0; s < K; s++)
     {
-      int op = pick_op (s, "op", 8), n;
+      int op, n;
+      if (sx_param ("opset", 0) == 1)
+        { /* longer histories over the operations that change segments: append 1, 15 or 24 bytes, finish, empty */
+          static const int ops1[5] = { 1, 1, 1, 5, 7 }; int c = pick_op (s, "op", 5);
+          op = ops1[c]; os_len1 = c == 0 ? 1 : c == 1 ? 15 : 24;
+        }
+      else { op = pick_op (s, "op", 8); os_len1 = -1; }
       sx_observe ("op", op);
       switch (op)
         {
         case 0: { int b = sx_range ("byte", 0, 255); OS_TOP_ADD_BYTE (os, b); model_top[model_len++] = (unsigned char) b; break; }
-        case 1: n = szs[sx_choice ("len", 6)]; for (k = 0; k < n; k++) src[k] = (unsigned char) (17 * s + k + 1); OS_TOP_ADD_MEMORY (os, src, (size_t) n); for (k = 0; k < n; k++) model_top[model_len++] = src[k]; break;
+        case 1: n = os_len1 >= 0 ? os_len1 : szs[sx_choice ("len", 6)]; for (k = 0; k < n; k++) src[k] = (unsigned char) (17 * s + k + 1); OS_TOP_ADD_MEMORY (os, src, (size_t) n); for (k = 0; k < n; k++) model_top[model_len++] = src[k]; break;
         case 2: n = sx_choice ("len", 12); for (k = 0; k < n; k++) src[k] = (unsigned char) ('a' + k); src[n] = 0;
                 OS_TOP_ADD_STRING (os, (const char *) src);
                 if (model_len > 0) model_len--;                 /* documented: the previous terminating byte is replaced */
